@@ -144,8 +144,17 @@ func (e *exec) decide(site, by int) *thread {
 	return en[ch]
 }
 
+// MaxPoints bounds one execution (typical executions have a few hundred
+// scheduling points): a thread that reaches a point beyond it is unwound with
+// a panic, so that code spinning without end becomes an observable outcome
+// ("did not terminate") instead of an exploration that never ends.
+const MaxPoints = 400_000
+
 // point is the hook called before every statement / sync operation.
 func (e *exec) point(site int) {
+	if len(e.res.Points) > MaxPoints {
+		panic(fmt.Sprintf("did not terminate: more than %d scheduling points in one execution (site %d)", MaxPoints, site))
+	}
 	me := e.threads[e.cur]
 	next := e.decide(site, me.id)
 	if next != me {
